@@ -3,7 +3,6 @@ package c11
 import (
 	"encoding/json"
 	"fmt"
-	"os"
 	"regexp"
 	"strconv"
 	"strings"
@@ -38,6 +37,8 @@ type lockOp struct {
 	P  string `json:"p,omitempty"` // prototype candidate
 	C  string `json:"c,omitempty"` // instanceof constructor
 	F  int    `json:"f,omitempty"` // callback id
+	// Force bypasses the hole guard (only used by the pinned witness of the known finding about HasProperty)
+	Force bool `json:"force,omitempty"`
 }
 
 type lockCase struct {
@@ -66,7 +67,6 @@ func keyIdx(name string) int {
 
 type kindInfo struct {
 	hostKeys []string // host kinds: the keys that exist (set is only issued on those)
-	noSeal   bool     // seal/freeze excluded (see kinds table)
 	name     string
 	weight   int
 	callable bool
@@ -79,8 +79,8 @@ type kindInfo struct {
 
 var hugeIdx = []string{"4294967294", "4294967295", "5000", "-1"}
 
-// real arrays: index 2^32-2 makes length 2^32-1, and goja stringifies the whole array (join over the length) when it
-// builds the message of e.g. a failed strict delete — unbounded native work, outside this property
+// real arrays: index 2^32-2 makes length 2^32-1; native loops over such a length (outside the VM's instruction
+// counter) make single cases run for minutes — logical cost bound, like the length<=6000 guard
 var maxIdx = []string{"4294967294"}
 
 var kinds = []kindInfo{
@@ -95,10 +95,8 @@ var kinds = []kindInfo{
 	{name: "class", weight: 6, callable: true, ordinary: true, badKeys: []string{"caller"}},
 	{name: "dense", weight: 10, arrayish: true, ordinary: true, badKeys: maxIdx},
 	{name: "sparse", weight: 5, arrayish: true, ordinary: true, badKeys: maxIdx},
-	// arguments: Object.seal/freeze applied directly leaves the mapped elements configurable (goja defect outside
-	// proxy.go, reported in the inbox): seal/freeze excluded for this kind
-	{name: "args", weight: 5, arrayish: true, noSeal: true},
-	{name: "strictargs", weight: 3, arrayish: true, noSeal: true},
+	{name: "args", weight: 5, arrayish: true},
+	{name: "strictargs", weight: 3, arrayish: true},
 	{name: "string", weight: 5, arrayish: true, noJSON: true},
 	// typed arrays: the inherited accessors length/@@toStringTag read an internal slot of the *receiver*, which is the
 	// proxy: not transparent by specification.  Array.prototype methods all start with Get(O, "length").
@@ -230,7 +228,7 @@ func genOp(r *core.Rng, ki *kindInfo) lockOp {
 		}
 		name = core.Pick(r, opGroups[r.PickW(w)].names)
 	}
-	if ki.host && os.Getenv("C11_HOSTFULL") == "" {
+	if ki.host {
 		if ki.arrayish && roll < 30 {
 			name = core.Pick(r, hostAmOps)
 		} else {
@@ -243,16 +241,13 @@ func genOp(r *core.Rng, ki *kindInfo) lockOp {
 	if ki.name == "typed" && strings.HasPrefix(name, "am/") {
 		name = "keys/O"
 	}
-	if ki.noSeal && (name == "seal/O" || name == "freeze/O") {
-		name = "pe/O"
-	}
 	if ki.name == "string" && (name == "am/from" || name == "am/spreadArr") {
 		name = "am/keysIter" // String.prototype[@@iterator] needs the [[StringData]] slot of its receiver: not transparent by specification
 	}
 	op := lockOp{Op: name}
 	op.K = genKey(r, ki)
 	op.A = []int{r.Intn(16), r.Intn(16)}
-	if ki.host && strings.HasPrefix(name, "set/") && os.Getenv("C11_HOSTFULL") == "" {
+	if ki.host && strings.HasPrefix(name, "set/") {
 		k := keyIdx(core.Pick(r, ki.hostKeys))
 		op.K = &k
 		op.A = []int{core.Pick(r, []int{0, 1, 10, 12}), 0} // small integers: assignable to every element type used
@@ -260,23 +255,13 @@ func genOp(r *core.Rng, ki *kindInfo) lockOp {
 			op.A[0] = core.Pick(r, []int{0, 1, 2, 11})
 		}
 	}
-	if ki.noSeal && strings.HasPrefix(name, "define/") && (lockKeyNames[*op.K] == "0" || lockKeyNames[*op.K] == "1") {
-		// arguments objects: attributes given to a (mapped) element by a direct defineProperty are not honoured by
-		// goja (reported in the inbox): elements are not redefined in this kind
-		k := keyIdx("a")
-		op.K = &k
-	}
-	if ki.arrayish && ki.ordinary && (strings.HasPrefix(name, "set/") || name == "keys/assignTo") && lockKeyNames[*op.K] == "length" {
-		// a real array whose length is read-only answers an invalid length with RangeError when assigned directly
-		// (goja checks the value first; spec: OrdinarySet fails first) — array territory (C07), reported in the inbox
-		op.A[0] = core.Pick(r, []int{0, 1, 10, 12, 4})
-	}
+
 	if strings.HasPrefix(name, "define/") {
 		op.D = genDesc(r)
-		if ki.noSeal {
-			// arguments objects: enumerability given to an element by defineProperty is ignored by goja's direct enumeration
-			// (JSON/keys still list it) — a defect of the arguments object, reported in the inbox; not generated here
-			op.D.E = nil
+		if lockKeyNames[*op.K] == "@@iterator" && op.D.G != nil && *op.D.G == "lg" {
+			// Array.from / spread on a real array read @@iterator twice in goja (fast-path probe + GetMethod; spec: once);
+			// a logging getter there would make that array-side quirk look like a proxy divergence: use the silent getter
+			op.D.G = sp("fv")
 		}
 	}
 	if strings.HasSuffix(name, "/Rr") {
@@ -418,7 +403,11 @@ func goForwardLayer(r *goja.Runtime, target *goja.Object, logFn, badFn goja.Call
 	s := func(x string) goja.Value { return r.ToValue(x) }
 	ix := func(i int) goja.Value { return r.ToValue(strconv.Itoa(i)) }
 	cfg := &goja.ProxyTrapConfig{
-		GetPrototypeOf: func(t *goja.Object) *goja.Object { chkTarget("getPrototypeOf", t); log("getPrototypeOf", nil); return t.Prototype() },
+		GetPrototypeOf: func(t *goja.Object) *goja.Object {
+			chkTarget("getPrototypeOf", t)
+			log("getPrototypeOf", nil)
+			return t.Prototype()
+		},
 		SetPrototypeOf: func(t *goja.Object, p *goja.Object) bool {
 			log("setPrototypeOf", nil)
 			return call(rSetProto, t, protoVal(p)).ToBoolean()
@@ -453,7 +442,11 @@ func goForwardLayer(r *goja.Runtime, target *goja.Object, logFn, badFn goja.Call
 			log("defineProperty", p)
 			return call(rDefine, t, p, pdToObject(r, d)).ToBoolean()
 		},
-		Has:    func(t *goja.Object, p string) bool { chkStr("has", p); log("has", s(p)); return call(rHas, t, s(p)).ToBoolean() },
+		Has: func(t *goja.Object, p string) bool {
+			chkStr("has", p)
+			log("has", s(p))
+			return call(rHas, t, s(p)).ToBoolean()
+		},
 		HasIdx: func(t *goja.Object, p int) bool { log("has", ix(p)); return call(rHas, t, ix(p)).ToBoolean() },
 		HasSym: func(t *goja.Object, p *goja.Symbol) bool { log("has", p); return call(rHas, t, p).ToBoolean() },
 		Get: func(t *goja.Object, p string, rc goja.Value) goja.Value {
@@ -462,8 +455,14 @@ func goForwardLayer(r *goja.Runtime, target *goja.Object, logFn, badFn goja.Call
 			log("get", s(p))
 			return call(rGet, t, s(p), valOrUndef(rc))
 		},
-		GetIdx: func(t *goja.Object, p int, rc goja.Value) goja.Value { log("get", ix(p)); return call(rGet, t, ix(p), valOrUndef(rc)) },
-		GetSym: func(t *goja.Object, p *goja.Symbol, rc goja.Value) goja.Value { log("get", p); return call(rGet, t, p, valOrUndef(rc)) },
+		GetIdx: func(t *goja.Object, p int, rc goja.Value) goja.Value {
+			log("get", ix(p))
+			return call(rGet, t, ix(p), valOrUndef(rc))
+		},
+		GetSym: func(t *goja.Object, p *goja.Symbol, rc goja.Value) goja.Value {
+			log("get", p)
+			return call(rGet, t, p, valOrUndef(rc))
+		},
 		Set: func(t *goja.Object, p string, v, rc goja.Value) bool {
 			chkStr("set", p)
 			log("set", s(p))
@@ -482,8 +481,14 @@ func goForwardLayer(r *goja.Runtime, target *goja.Object, logFn, badFn goja.Call
 			log("deleteProperty", s(p))
 			return call(rDelete, t, s(p)).ToBoolean()
 		},
-		DeletePropertyIdx: func(t *goja.Object, p int) bool { log("deleteProperty", ix(p)); return call(rDelete, t, ix(p)).ToBoolean() },
-		DeletePropertySym: func(t *goja.Object, p *goja.Symbol) bool { log("deleteProperty", p); return call(rDelete, t, p).ToBoolean() },
+		DeletePropertyIdx: func(t *goja.Object, p int) bool {
+			log("deleteProperty", ix(p))
+			return call(rDelete, t, ix(p)).ToBoolean()
+		},
+		DeletePropertySym: func(t *goja.Object, p *goja.Symbol) bool {
+			log("deleteProperty", p)
+			return call(rDelete, t, p).ToBoolean()
+		},
 		OwnKeys: func(t *goja.Object) *goja.Object {
 			log("ownKeys", nil)
 			return call(rOwnKeys, t).ToObject(r)
@@ -513,15 +518,15 @@ type seqFacts struct {
 }
 
 type sideRec struct {
-	Out  string    `json:"out"`
-	Log  string    `json:"log"`
-	Dump string    `json:"dump"`
-	Tlog string    `json:"tlog"`
-	Bad  string    `json:"bad"`
+	Out  string `json:"out"`
+	Log  string `json:"log"`
+	Dump string `json:"dump"`
+	Tlog string `json:"tlog"`
+	Bad  string `json:"bad"`
 	// world A only: essential-invariant violations of the direct target between before and after the op
-	Insane string `json:"insane"`
-	Pre  *seqFacts `json:"pre"`
-	Post *seqFacts `json:"post"`
+	Insane string    `json:"insane"`
+	Pre    *seqFacts `json:"pre"`
+	Post   *seqFacts `json:"post"`
 }
 
 type stepRec struct {
@@ -597,7 +602,9 @@ func execLock(lc *lockCase, st *core.Stats) lockResult {
 		badFn, _ := goja.AssertFunction(call.Argument(3))
 		return goForwardLayer(r, call.Argument(0).ToObject(r), logFn, badFn)
 	}
-	o := gj.Call(func() (goja.Value, error) { return fn(goja.Undefined(), r.ToValue(string(b)), r.ToValue(host), r.ToValue(goLayer)) })
+	o := gj.Call(func() (goja.Value, error) {
+		return fn(goja.Undefined(), r.ToValue(string(b)), r.ToValue(host), r.ToValue(goLayer))
+	})
 	switch {
 	case o.Panic != nil:
 		return lockResult{viol: &lockViolation{"go-panic-escaped", "panic:" + firstLine(fmt.Sprint(o.Panic)), fmt.Sprintf("Go panic escaped: %v\n%s", o.Panic, core.Trunc(o.PanicStack, 2500)), -2}}
@@ -671,9 +678,9 @@ func execLock(lc *lockCase, st *core.Stats) lockResult {
 		if a.Out != bb.Out {
 			return fail("lockstep-outcome", fmt.Sprintf("%s target=%s proxy=%s", opn, outKind(a.Out), outKind(bb.Out)), fmt.Sprintf("on the target: %s; through the proxy: %s", a.Out, bb.Out))
 		}
-		// goja builds the message of many TypeErrors by stringifying the object (which runs user-visible getters such as
-		// @@toStringTag or array elements); the proxy path fails with a different message.  The log of a *throwing* op is
-		// therefore compared only up to that noise: not at all.
+		// goja builds the message of some TypeErrors by stringifying the object (e.g. "<obj> is not a function" runs a
+		// user @@toStringTag getter); the proxy path fails with another message.  The accessor log of a *throwing* op is
+		// therefore not compared (by-product 11 in the inbox); results, exception class and state still are.
 		if a.Log != bb.Log && !strings.HasPrefix(a.Out, "throw:") {
 			return fail("lockstep-accessor-log", opn, fmt.Sprintf("accessor/call log on the target: [%s]; through the proxy: [%s]", a.Log, bb.Log))
 		}
@@ -984,7 +991,7 @@ func (g *seqGen) set(i int, result bool, pre, post *seqFacts, recvIsSubject, rec
 		switch pre.Chain {
 		case "none", "dataW":
 			if recvIsSubject {
-				g.gopd(0, pre.Own)                // Receiver.[[GetOwnProperty]](P)
+				g.gopd(0, pre.Own)            // Receiver.[[GetOwnProperty]](P)
 				g.define(0, result, post.Own) // Receiver.[[DefineOwnProperty]] / CreateDataProperty
 			}
 		}
@@ -1209,12 +1216,13 @@ func minimiseLock(lc lockCase, v *lockViolation, budget int) (lockCase, *lockVio
 		}
 	}
 	for _, k := range []string{"plain", "dense", "function"} {
-		if cur.Kind != k {
-			cand := cloneCase(&cur)
-			cand.Kind = k
-			if accept(cand) {
-				break
-			}
+		if cur.Kind == k {
+			break // already canonical (or more canonical than the rest of the list)
+		}
+		cand := cloneCase(&cur)
+		cand.Kind = k
+		if accept(cand) {
+			break
 		}
 	}
 	for i := range cur.Ops {
@@ -1359,10 +1367,7 @@ func runLockMin(c *core.Ctx, lc lockCase) core.Result {
 	if res.viol == nil {
 		return core.Result{Verdict: core.Held, NonTrivial: nt, Key: lc.sig()}
 	}
-	minC, minV := lc, res.viol
-	if c.Index >= 0 || true {
-		minC, minV = minimiseLock(lc, res.viol, 200)
-	}
+	minC, minV := minimiseLock(lc, res.viol, 200)
 	if chk := execLock(&minC, nil); !sameFailure(chk.viol, minV) {
 		if c.Replay {
 			fmt.Printf("minimised case does not reproduce on its own (%+v); reporting the original\n", chk.viol)
